@@ -124,8 +124,17 @@ class Gen:
         fmt = (tag[2] % 16) * 256 + tag[3] if tag[:2] == [0, 0] and tag[2] < 16 else -1
         return fmt, self.xrec(tag, self.octets(r.choice([0, 4, 8, 60])))
 
-    def datagram(self, budget=1400):
+    def datagram(self, budget=1400, v6=None, sub=None, seq=None, only=None):
+        """v6 / sub / seq: agent address family, sub-agent id and sequence number of the header when given (else seeded);
+        only: the datagram consists of samples of this type"""
         r = self.r
+        if only is not None:
+            while True:
+                t, s = self.sample()
+                if t == only:
+                    break
+            head = [0, 0, 0, 5] + u32(2 if v6 else 1) + self.octets(16 if v6 else 4) + u32(sub) + u32(seq) + self.w32() + u32(1)
+            return head + s, [t]
         v6 = r.random() < 0.3
         samples, types, size = [], [], 0
         if r.random() < 0.08:
